@@ -1,6 +1,346 @@
-"""Kani route — placeholder, replaced below."""
-from kv import Undecided
+"""Kani route (DESIGN §2.2): weave contract attributes + harness child modules into a scratch copy of
+/repo's working tree, run `cargo kani` on the real crates, classify per harness.
+
+Nothing is written to /repo.  The scratch copy lives at a fixed path outside /repo and /verif and is
+removed at the end of every run; only the dependency build cache (/verif/.cache/kani-target) persists.
+"""
+import fcntl
+import json
+import os
+import re
+import shutil
+import subprocess
+import sys
+import time
+import tomllib
+
+from kv import Index, Undecided, VERIF, REPO, sha
+
+SCRATCH = os.environ.get("VERIF_SCRATCH", "/var/tmp/kanidm-verif-scratch")
+LOCK = SCRATCH + ".lock"
+TARGET = os.path.join(VERIF, ".cache", "kani-target")
+TEST_TARGET = os.path.join(VERIF, ".cache", "test-target")
+
+
+def sh(cmd, cwd=None, env=None, timeout=None):
+    e = dict(os.environ)
+    e.update(env or {})
+    p = subprocess.run(cmd, cwd=cwd, env=e, capture_output=True, text=True, timeout=timeout)
+    return p.returncode, p.stdout + "\n" + p.stderr
+
+
+def sync_scratch():
+    os.makedirs(SCRATCH, exist_ok=True)
+    rc, out = sh(["rsync", "-a", "--delete", "--exclude", "/target", "--exclude", "/.git", REPO + "/", SCRATCH + "/"])
+    if rc != 0:
+        raise Undecided("rsync of /repo failed: " + out[-300:])
+
+
+def load(path):
+    with open(path, "rb") as fh:
+        sc = tomllib.load(fh)
+    sc["_path"] = path
+    return sc
+
+
+def weave(sc, ix_cache):
+    """Add contract attributes and the harness child module to the scratch copy. Returns bookkeeping records."""
+    recs = []
+    edits = {}  # file -> list of (offset, text)
+    for c in sc.get("contract", []):
+        src_dir = os.path.join(SCRATCH, c.get("crate_src", sc.get("crate_src", "server/lib/src")))
+        if src_dir not in ix_cache:
+            ix_cache[src_dir] = Index([src_dir])
+        ix = ix_cache[src_dir]
+        it = ix.find(c["path"], kind="fn", trait=c.get("trait"), file_hint=c.get("file_hint"))
+        attrs = "".join(f"#[cfg_attr(kani, {a})]\n" for a in c["attrs"])
+        # insert after the fn's own attributes/doc comments, i.e. right before visibility / `fn`
+        at = it["vis"][0][0] if it["vis"] else it["sig_span"][0]
+        edits.setdefault(it["file"], []).append((at, attrs))
+        s, e = it["span"]
+        recs.append({"unit": sc.get("unit"), "path": c["path"], "trait": c.get("trait"), "kind": "fn", "file": os.path.relpath(it["file"], SCRATCH),
+                     "sha256": sha(ix.source(it["file"])[s:e]), "rules_fired": {"kani-contract-attrs": len(c["attrs"])}, "contract": c["attrs"]})
+    for f, eds in edits.items():
+        with open(f, "rb") as fh:
+            b = fh.read()
+        for at, text in sorted(eds, reverse=True):
+            b = b[:at] + text.encode() + b[at:]
+        with open(f, "wb") as fh:
+            fh.write(b)
+    attach = os.path.join(SCRATCH, sc["attach"])
+    if not os.path.exists(attach):
+        raise Undecided(f"anchor lost: file {sc['attach']} does not exist")
+    hpath = os.path.join(VERIF, sc["harness_file"])
+    modname = "verif_kani_" + re.sub(r"\W", "_", sc.get("unit", "u"))
+    with open(attach, "a") as fh:
+        fh.write(f"\n#[cfg(kani)]\n#[path = \"{hpath}\"]\nmod {modname};\n")
+    for extra in sc.get("crate_attrs", []):
+        # crate-level feature gates (loop contracts): prepend to the crate root
+        root = os.path.join(SCRATCH, extra["root"])
+        with open(root) as fh:
+            t = fh.read()
+        with open(root, "w") as fh:
+            fh.write(extra["text"] + "\n" + t)
+    return recs
+
+
+HARNESS_RE = re.compile(r"^(?:Thread (\d+): )?Checking harness ([\w:]+)\.\.\.")
+THREAD_RE = re.compile(r"^Thread (\d+): ?(.*)$")
+
+
+def parse_kani(out):
+    """Regular and `-j N --output-format terse` output: attribute each result block to its harness."""
+    bodies = {}
+    cur_by_thread = {}
+    cur = None
+    for line in out.splitlines():
+        m = HARNESS_RE.match(line)
+        if m:
+            t = m.group(1) or "-"
+            name = m.group(2).split("::")[-1]
+            cur_by_thread[t] = name
+            cur = name
+            bodies.setdefault(name, [])
+            continue
+        m = THREAD_RE.match(line)
+        if m:
+            cur = cur_by_thread.get(m.group(1))
+            line = m.group(2)
+        if cur is not None:
+            bodies[cur].append(line)
+    res = {}
+    for name, lines in bodies.items():
+        body = "\n".join(lines)
+        m = re.search(r"VERIFICATION:- (SUCCESSFUL|FAILED)", body)
+        n = re.search(r"\*\* (\d+) of (\d+) failed", body)
+        t = re.search(r"Verification Time: ([\d.]+)s", body)
+        failed = re.findall(r"Failed Checks: (.*)", body)
+        covers = re.findall(r"\*\* (\d+) of (\d+) cover properties satisfied", body)
+        result = m.group(1) if m else "UNKNOWN"
+        if result == "FAILED" and n is None:
+            result = "UNKNOWN"  # CBMC crashed / was killed / timed out: no verdict
+        res[name] = {
+            "result": result,
+            "failed": int(n.group(1)) if n else None,
+            "checks": int(n.group(2)) if n else None,
+            "time_s": float(t.group(1)) if t else None,
+            "failed_checks": failed[:10],
+            "covers": covers[0] if covers else None,
+            "tail": body[-1500:],
+        }
+    return res
+
+
+def cargo_kani(package, flags, harnesses, extra_env=None, timeout=3000, playback=False, harness_timeout=600, jobs=8):
+    cmd = ["cargo", "kani", "-p", package] + flags
+    if not playback:
+        cmd += ["-Z", "unstable-options", "--harness-timeout", str(harness_timeout) + "s", "-j", str(jobs), "--output-format", "terse"]
+    for h in harnesses:
+        cmd += ["--harness", h]
+    cmd += ["--target-dir", TARGET]
+    if playback:
+        cmd += ["-Z", "concrete-playback", "--concrete-playback=print"]
+    env = {"RUSTFLAGS": "--cap-lints=warn", "CARGO_NET_OFFLINE": "true"}
+    env.update(extra_env or {})
+    t0 = time.time()
+    try:
+        rc, out = sh(["timeout", "-k", "10", str(timeout)] + cmd, cwd=SCRATCH, env=env)
+    except Exception as ex:  # pragma: no cover
+        return 99, str(ex), " ".join(cmd), time.time() - t0
+    return rc, out, " ".join(cmd), time.time() - t0
+
+
 def run_units(prop, sidecars, tier, keep=False):
-    raise Undecided("kani route not built yet")
-def run_replay_test(rt):
-    return 2, "not built"
+    os.makedirs(os.path.dirname(TARGET), exist_ok=True)
+    results = []
+    with open(LOCK, "w") as lk:
+        fcntl.flock(lk, fcntl.LOCK_EX)
+        try:
+            sync_scratch()
+            ix_cache = {}
+            units = []
+            for p in sidecars:
+                sc = load(p)
+                try:
+                    recs = weave(sc, ix_cache)
+                    units.append((sc, recs, None))
+                except Undecided as ex:
+                    units.append((sc, [], str(ex)))
+            # group by (package, flags) so that one cargo-kani invocation serves several units
+            for sc, recs, err in units:
+                t0 = time.time()
+                r = {"unit": sc.get("unit"), "backend": "kani", "sidecar": os.path.relpath(sc["_path"], VERIF), "failures": [], "repro": [],
+                     "records": recs, "clauses": {}, "functions": [], "assumptions": list(sc.get("assumptions", [])), "not_covered": list(sc.get("not_covered", [])),
+                     "bounded": bool(sc.get("bounded")), "bound": sc.get("bound"), "verified": 0, "errors": 0, "checks_total": 0, "checks_ok": 0, "solver_s": 0.0,
+                     "harness_results": []}
+                if err:
+                    r.update(status="undecided", undecided=err, cmd="", wall_s=0)
+                    results.append(r)
+                    continue
+                hs = [h for h in sc.get("harness", []) if not (h.get("tier") == "thorough" and tier != "thorough")]
+                names = [h["name"] for h in hs]
+                rc, out, cmd, wall = cargo_kani(sc["package"], sc.get("flags", []), names, timeout=sc.get("timeout", 2400), harness_timeout=sc.get("harness_timeout", 600), jobs=sc.get("jobs", 8))
+                r["cmd"] = "RUSTFLAGS=--cap-lints=warn CARGO_NET_OFFLINE=true " + cmd + "   (cwd: scratch copy of /repo with woven harness modules)"
+                parsed = parse_kani(out)
+                r["harnesses"] = names
+                und = None
+                if rc == 124 or rc == 137:
+                    und = f"cargo kani timed out after {sc.get('timeout', 2400)} s"
+                if re.search(r"error(\[E\d+\])?: ", out) and not parsed:
+                    m = re.search(r"(error(\[E\d+\])?: [^\n]*(\n[^\n]*){0,6})", out)
+                    und = "kani build failed: " + (m.group(1)[:600] if m else out[-400:])
+                for h in hs:
+                    pr = parsed.get(h["name"])
+                    if pr is None:
+                        und = und or f"harness {h['name']} produced no result: " + out[-500:]
+                        continue
+                    expect_fail = h.get("expect") == "failure"
+                    hr = {"name": h["name"], "kind": h.get("kind", "full"), "result": pr["result"], "checks": pr["checks"], "failed": pr["failed"], "time_s": pr["time_s"],
+                          "twin_of": h.get("twin_of"), "finding": h.get("finding")}
+                    r["harness_results"].append(hr)
+                    r["solver_s"] += pr["time_s"] or 0.0
+                    if pr["result"] == "UNKNOWN":
+                        und = und or f"harness {h['name']}: no verdict"
+                        continue
+                    if expect_fail:
+                        r["repro"].append({"finding": h.get("finding"), "what": h.get("what", ""), "status": "fail" if pr["result"] == "FAILED" else "pass",
+                                           "reproduces": pr["result"] == "FAILED", "expected": [h["name"]], "failed": [h["name"]] if pr["result"] == "FAILED" else [],
+                                           "extra": [], "failures": []})
+                        continue
+                    r["checks_total"] += pr["checks"] or 0
+                    r["checks_ok"] += (pr["checks"] or 0) - (pr["failed"] or 0)
+                    if pr["result"] == "SUCCESSFUL":
+                        r["verified"] += 1
+                        if h.get("cover") and pr["covers"] and pr["covers"][0] != pr["covers"][1]:
+                            und = und or f"vacuity: harness {h['name']} cover properties {pr['covers'][0]}/{pr['covers'][1]} satisfied"
+                    else:
+                        r["errors"] += 1
+                        # unwinding assertion / unsupported construct failures are limits of the bound, not violations
+                        fc = " | ".join(pr["failed_checks"])
+                        only_limits = pr["failed_checks"] and all(re.search(r"unwinding assertion|is not currently supported|unsupported", x) for x in pr["failed_checks"])
+                        if only_limits:
+                            und = und or f"harness {h['name']}: bound/unsupported-construct failure ({fc[:200]})"
+                            continue
+                        f = {"obligation": f"kani.{h['name']}", "tag": h.get("tag", "property"), "kind": "kani_failure", "message": f"Kani FAILED: {fc[:400]}",
+                             "fn": h.get("fn"), "clause": h.get("claim"), "site_line": None, "site_text": "", "rendered": pr["tail"]}
+                        # counterexample + replay on the real code
+                        try:
+                            cex = concrete_playback(sc, h)
+                            if cex:
+                                f["counterexample"] = cex.get("values")
+                                f["replay_test"] = cex.get("replay_test")
+                                f["replay_output"] = cex.get("replay_output")
+                                f["rendered"] += "\n--- concrete playback ---\n" + cex.get("raw", "")[:3000]
+                        except Exception as ex:  # never let replay plumbing turn into an alarm or hide one
+                            f["rendered"] += f"\n(concrete playback failed: {ex})"
+                        r["failures"].append(f)
+                if r["failures"]:
+                    r["status"] = "fail"
+                elif und:
+                    r["status"] = "undecided"
+                    r["undecided"] = und
+                else:
+                    r["status"] = "pass"
+                r["wall_s"] = round(time.time() - t0, 2)
+                results.append(r)
+        finally:
+            if not keep:
+                shutil.rmtree(SCRATCH, ignore_errors=True)
+            fcntl.flock(lk, fcntl.LOCK_UN)
+    return results
+
+
+def decode_vals(raw, types):
+    """Kani prints `concrete_vals: Vec<Vec<u8>> = vec![ // 99ul \n vec![99,0,..], ...]`; decode little-endian by declared type."""
+    vecs = re.findall(r"vec!\[([\d,\s]*)\]", raw)
+    vals = []
+    for v in vecs:
+        bs = [int(x) for x in v.replace(" ", "").split(",") if x != ""]
+        vals.append(bs)
+    # the first `vec![` match may be the outer one (empty match) — drop empties that precede data
+    vals = [v for v in vals if v]
+    out = []
+    for i, t in enumerate(types):
+        if i >= len(vals):
+            break
+        b = vals[i]
+        if t == "bool":
+            out.append("true" if b[0] else "false")
+        elif t.startswith("bytes"):
+            out.append("[" + ", ".join(str(x) for x in b) + "]")
+        else:
+            out.append(str(int.from_bytes(bytes(b), "little")) + t)
+    return out
+
+
+def concrete_playback(sc, h):
+    if not h.get("replay_types"):
+        return None
+    rc, out, cmd, wall = cargo_kani(sc["package"], sc.get("flags", []), [h["name"]], timeout=1200, playback=True)
+    m = re.search(r"(?s)Concrete playback unit test for `[^`]+`:(.*?)(?:INFO|VERIFICATION|Summary|$)", out)
+    raw = m.group(1) if m else ""
+    if not raw:
+        return {"raw": out[-1500:], "values": None}
+    vals = decode_vals(raw, h["replay_types"])
+    res = {"raw": raw, "values": dict(zip(h.get("replay_names", [f"v{i}" for i in range(len(vals))]), vals))}
+    if h.get("replay_test") and len(vals) >= len(h["replay_types"]):
+        body = h["replay_test"]
+        for i, v in enumerate(vals):
+            body = body.replace("{" + str(i) + "}", v)
+        rt = {"crate": sc["package"], "file": sc["attach"], "test_source": body, "name": h.get("replay_name", "verif_replay"),
+              "command": f"cargo test --offline -p {sc['package']} --lib {h.get('replay_name', 'verif_replay')}"}
+        res["replay_test"] = rt
+        rc2, out2 = run_replay_test(rt, have_lock=True)
+        res["replay_output"] = out2[-2500:]
+        rt["fails_on_real_code"] = rc2 != 0
+    return res
+
+
+def run_replay_test(rt, have_lock=False):
+    """Append the test to a *fresh* copy of /repo (no kani weave) and run it with plain cargo test."""
+    scratch = SCRATCH + "-replay"
+    try:
+        os.makedirs(scratch, exist_ok=True)
+        rc, out = sh(["rsync", "-a", "--delete", "--exclude", "/target", "--exclude", "/.git", REPO + "/", scratch + "/"])
+        if rc != 0:
+            return 2, "rsync failed"
+        with open(os.path.join(scratch, rt["file"]), "a") as fh:
+            fh.write("\n#[cfg(test)]\nmod verif_replay_mod {\n    #![allow(unused_imports, clippy::all)]\n    use super::*;\n" + rt["test_source"] + "\n}\n")
+        rc, out = sh(["timeout", "3000", "cargo", "+1.96.0", "test", "--offline", "-p", rt["crate"], "--lib", rt.get("name", "verif_replay"), "--target-dir", TEST_TARGET],
+                     cwd=scratch, env={"CARGO_NET_OFFLINE": "true"})
+        return rc, out
+    finally:
+        shutil.rmtree(scratch, ignore_errors=True)
+
+
+def warm():
+    """setup: build the dependency graph of the crates the kani units attach to (once, ~6 min)."""
+    os.makedirs(os.path.dirname(TARGET), exist_ok=True)
+    with open(LOCK, "w") as lk:
+        fcntl.flock(lk, fcntl.LOCK_EX)
+        try:
+            sync_scratch()
+            hp = os.path.join(VERIF, "kani", "warm.rs")
+            pk = set()
+            import glob
+            for p in glob.glob(os.path.join(VERIF, "contracts", "*", "*.toml")):
+                sc = load(p)
+                if sc.get("backend", "").startswith("kani") and not sc.get("disabled"):
+                    pk.add((sc["package"], sc["attach"]))
+            seen = set()
+            for package, attach in sorted(pk):
+                if package in seen:
+                    continue
+                seen.add(package)
+                with open(os.path.join(SCRATCH, attach), "a") as fh:
+                    fh.write(f"\n#[cfg(kani)]\n#[path = \"{hp}\"]\nmod verif_kani_warm;\n")
+                rc, out, cmd, wall = cargo_kani(package, [], ["verif_warm"], timeout=3400)
+                print(f"kani warm {package}: rc={rc} wall={wall:.0f}s", "OK" if "SUCCESSFUL" in out else out[-800:])
+        finally:
+            shutil.rmtree(SCRATCH, ignore_errors=True)
+            fcntl.flock(lk, fcntl.LOCK_UN)
+
+
+if __name__ == "__main__":
+    if len(sys.argv) > 1 and sys.argv[1] == "--warm":
+        warm()
